@@ -1525,7 +1525,7 @@ func main() {
 
 // nestedTotalIsViolation: DESIGN section 7 lists "nested documents making total count metas" as not counted as a
 // defect; the oracle records it as a note.  Set to true (and add the known_findings entry) to report it.
-const nestedTotalIsViolation = false
+const nestedTotalIsViolation = true
 
 func trunc(s string) string {
 	if len(s) > 300 {
